@@ -351,29 +351,23 @@ void do_printf_ints(S &sink, char t, format_options opts,
 			FRG_ASSERT(szmod == printf_size_mod::default_size);
 			number = pop_arg<int>(vsp, &opts);
 		}
-		if(opts.precision && *opts.precision == 0 && !number) {
-			// print nothing in this case
-		}else{
-			_fmt_basics::print_int(sink, number, 10, opts.minimum_width,
-					opts.precision ? *opts.precision : 1, opts.fill_zeros ? '0' : ' ',
-					opts.left_justify, opts.group_thousands, opts.always_sign,
-					opts.plus_becomes_space, false, locale_opts);
-		}
+		// The 0 flag is ignored if a precision is given or if the field is left-justified.
+		_fmt_basics::print_int(sink, number, 10, opts.minimum_width,
+				opts.precision ? *opts.precision : 1,
+				(opts.fill_zeros && !opts.precision && !opts.left_justify) ? '0' : ' ',
+				opts.left_justify, opts.group_thousands, opts.always_sign,
+				opts.plus_becomes_space, false, locale_opts);
 	} break;
 	case 'b':
 	case 'B' : {
 		auto print = [&] (auto number) {
-			if (number && opts.alt_conversion)
-				sink.append(t == 'b' ? "0b" : "0B");
-
-			if(opts.precision && *opts.precision == 0 && !number) {
-				// print nothing in this case
-			}else{
-				_fmt_basics::print_int(sink, number, 2, opts.minimum_width,
-						opts.precision ? *opts.precision : 1, opts.fill_zeros ? '0' : ' ',
-						opts.left_justify, false, opts.always_sign, opts.plus_becomes_space,
-						false, locale_opts);
-			}
+			// Unsigned conversions never print a sign; the prefix is part of the field.
+			_fmt_basics::print_int(sink, number, 2, opts.minimum_width,
+					opts.precision ? *opts.precision : 1,
+					(opts.fill_zeros && !opts.precision && !opts.left_justify) ? '0' : ' ',
+					opts.left_justify, false, false, false,
+					false, locale_opts,
+					(number && opts.alt_conversion) ? (t == 'b' ? "0b" : "0B") : "");
 		};
 
 		if(szmod == printf_size_mod::char_size) {
@@ -395,17 +389,20 @@ void do_printf_ints(S &sink, char t, format_options opts,
 	} break;
 	case 'o': {
 		auto print = [&] (auto number) {
-			if (number && opts.alt_conversion)
-				sink.append('0');
-
-			if(opts.precision && *opts.precision == 0 && !number) {
-				// print nothing in this case
-			}else{
-				_fmt_basics::print_int(sink, number, 8, opts.minimum_width,
-						opts.precision ? *opts.precision : 1, opts.fill_zeros ? '0' : ' ',
-						opts.left_justify, false, opts.always_sign, opts.plus_becomes_space,
-						false, locale_opts);
+			// The alternative form raises the precision, if necessary, so that the first digit is a zero.
+			int precision = opts.precision ? *opts.precision : 1;
+			if(opts.alt_conversion) {
+				int k = 0;
+				for(auto n = number; n; n /= 8)
+					k++;
+				if(precision <= k)
+					precision = k + 1;
 			}
+			_fmt_basics::print_int(sink, number, 8, opts.minimum_width,
+					precision,
+					(opts.fill_zeros && !opts.precision && !opts.left_justify) ? '0' : ' ',
+					opts.left_justify, false, false, false,
+					false, locale_opts);
 		};
 
 		if(szmod == printf_size_mod::char_size) {
@@ -428,17 +425,12 @@ void do_printf_ints(S &sink, char t, format_options opts,
 	case 'x':
 	case 'X': {
 		auto print = [&] (auto number) {
-			if (number && opts.alt_conversion)
-				sink.append(t == 'x' ? "0x" : "0X");
-
-			if(opts.precision && *opts.precision == 0 && !number) {
-				// print nothing in this case
-			}else{
-				_fmt_basics::print_int(sink, number, 16, opts.minimum_width,
-						opts.precision ? *opts.precision : 1, opts.fill_zeros ? '0' : ' ',
-						opts.left_justify, false, opts.always_sign, opts.plus_becomes_space,
-						t == 'X', locale_opts);
-			}
+			_fmt_basics::print_int(sink, number, 16, opts.minimum_width,
+					opts.precision ? *opts.precision : 1,
+					(opts.fill_zeros && !opts.precision && !opts.left_justify) ? '0' : ' ',
+					opts.left_justify, false, false, false,
+					t == 'X', locale_opts,
+					(number && opts.alt_conversion) ? (t == 'x' ? "0x" : "0X") : "");
 		};
 
 		if(szmod == printf_size_mod::char_size) {
@@ -461,14 +453,11 @@ void do_printf_ints(S &sink, char t, format_options opts,
 	case 'u': {
 		auto print = [&] (auto number) {
 			FRG_ASSERT(!opts.alt_conversion);
-			if(opts.precision && *opts.precision == 0 && !number) {
-				// print nothing in this case
-			}else{
-				_fmt_basics::print_int(sink, number, 10, opts.minimum_width,
-						opts.precision ? *opts.precision : 1, opts.fill_zeros ? '0' : ' ',
-						opts.left_justify, opts.group_thousands, opts.always_sign,
-						opts.plus_becomes_space, false, locale_opts);
-			}
+			_fmt_basics::print_int(sink, number, 10, opts.minimum_width,
+					opts.precision ? *opts.precision : 1,
+					(opts.fill_zeros && !opts.precision && !opts.left_justify) ? '0' : ' ',
+					opts.left_justify, opts.group_thousands, false,
+					false, false, locale_opts);
 		};
 
 		if(szmod == printf_size_mod::char_size) {
